@@ -89,7 +89,7 @@ def full_fp(w):
 
 def plan(tier, seed):
     n = 16
-    return [dict(part=i, nparts=n, seed=seed * 100 + i, n=2500 if tier == 'quick' else 40000, tier=tier) for i in range(n)]
+    return [dict(part=i, nparts=n, seed=seed * 100 + i, n=6000 if tier == 'quick' else 40000, tier=tier) for i in range(n)]
 
 
 def to_json_attrs(attrs):
